@@ -13,6 +13,7 @@ RULE = ('exhaustive: every phased Pauli (i^k, string) and every ordered pair for
         '(sub-check, n, string, phase) for enumerations, (n, phase, has_Y, batch shape) for generated cases.'
         ' Batched arguments are also handed over Fortran-ordered / strided / read-only / with negative strides; at the edge of the index range (4^n-1, 4^n, 4^n+1, -1) an accepted index must come back from the inverse conversion.'
         ' An operator object multiplied with itself; Hermiticity flags as np.bool_ and 0/1; sign arrays that broadcast against the batch; second-call clause for the integer conversions.')
+RULE += ' Batches of strings are also held in a wider unicode dtype than the strings need, and batches of indices in uint8 / int16 / int32 arrays (values < 4^n).'
 ASSUMPTIONS = ['dense matrices are compared exactly up to 1e-12 (entries are in {0,+-1,+-i})',
                'index conversions are exercised up to n=31 (index < 4^31) as the statement bounds them']
 
@@ -192,6 +193,21 @@ def run_batch(ctx, case):
     # str <-> index
     idx = nq.gate.pauli_str_to_index(arr_s)
     ctx.require(idx.shape == shape and [int(x) for x in idx.reshape(-1)] == idx_ref, 'batch str_to_index')
+    # the same strings in a wider unicode dtype (a table column declared for longer strings): numpy pads with NUL, the strings are the same strings
+    idx_w = nq.gate.pauli_str_to_index(L(np.array(strs, dtype=f'U{n + 1 + n % 3}').reshape(shape)))
+    ctx.require(np.shape(idx_w) == shape and [int(x) for x in np.asarray(idx_w).reshape(-1)] == idx_ref, 'batch str_to_index: strings held in a wider unicode dtype',
+                f'{np.asarray(idx_w).reshape(-1).tolist()} vs {idx_ref}')
+    # index arrays in a narrow integer dtype (every value is a valid index < 4^n; the dtype has fewer than 2n bits when n >= 5 resp. n >= 9)
+    for dt_, bits_ in ((np.uint8, 8), (np.int16, 15), (np.int32, 31)):
+        vals = [i % min(2 ** bits_, 4 ** n) for i in idx_ref]
+        nar = L(np.array(vals, dtype=dt_).reshape(shape))
+        wide = np.array(vals, dtype=np.uint64).reshape(shape)
+        for ws in (True, False):
+            ctx.close(nq.gate.pauli_index_to_F2(nar, n, with_sign=ws) * 1, nq.gate.pauli_index_to_F2(wide, n, with_sign=ws) * 1, 0,
+                      'batch index_to_F2: a narrow integer dtype gives the same bits as uint64')
+        sn = nq.gate.pauli_index_to_str(nar, n)
+        ctx.require(np.shape(sn) == shape and np.asarray(sn).reshape(-1).tolist() == np.asarray(nq.gate.pauli_index_to_str(wide, n)).reshape(-1).tolist(),
+                    'batch index_to_str: a narrow integer dtype gives the same strings as uint64')
     idx_arr = L(np.array(idx_ref, dtype=np.uint64).reshape(shape))
     s_back = nq.gate.pauli_index_to_str(idx_arr, n)
     ctx.require(s_back.shape == shape and s_back.reshape(-1).tolist() == strs, 'batch index_to_str')
